@@ -124,7 +124,7 @@ def compare(a, b, fin, strict, failing, edge=False):
         if not ra["exc"] and ra["funcs"].get("f") is None:
             return None, None          # an edge form the gate refuses: nothing is claimed about it
     if ra["exc"] or rb["exc"]:
-        if (ra["exc"] or [None])[0] == "ParseError" or (rb["exc"] or [None])[0] == "ParseError":
+        if (ra["exc"] or [None])[0] in ("ParseError", "Timeout") or (rb["exc"] or [None])[0] in ("ParseError", "Timeout"):
             return None, None
         failing.append({"what": f"raise: sugar program {ra['exc']} / plain twin {rb['exc']}", "sig": ["C18", "raise"] + list((ra["exc"] or rb["exc"])[:2]), "input": inp})
         return None, None
